@@ -232,6 +232,33 @@ CLAIMS["C16"] = dict(
     design_ref="DESIGN.md section 4, C16",
     technique="static analysis: sibling comparison by symbolic evaluation, pairing/clamping rules, dependency analysis of sample points, integrand-shape rules")
 
+CLAIMS["C12"] = dict(
+    category="other",
+    text=("Decides: (O1) polynomial identities of the closed-form 3x3 helpers for a generic symbolic matrix (det, trace, I2, "
+          "detpIm1(A) = det(A+I)-1, inv(A)A = A inv(A) = I, deviator, sym/skw); (O2) symmetric_matrix_function is "
+          "V diag(f(lam)) V^T with eigenvectors as columns, the eigen solver applies argsort(evals) to the eigenvalues and to the "
+          "column axis, assembles values and vectors in the same order, and eigen_sym33_unit scales by the max norm, rescales the "
+          "eigenvalues by the same factor and normalises each column by its own length; (O3) every custom_jvp function has a rule "
+          "whose primal output calls the decorated function and whose tangent helper gets the primal's scalar function, the divided "
+          "difference falls back to the derivative at equal eigenvalues, the sqrt relative difference is proved algebraically and "
+          "the transcendental ones are screened for counterexamples (refutation only). Accuracy over magnitudes, near degeneracy, "
+          "and the LinAlg iterations are numerical and NOT decided."),
+    design_ref="DESIGN.md section 4, C12",
+    technique="static analysis: polynomial identity checking by abstract interpretation on a generic matrix, role/permutation rules, custom_jvp protocol checking")
+
+CLAIMS["C10"] = dict(
+    category="other",
+    text=("Decides the derivative wiring only: every custom_jvp rule computes its primal output by calling the decorated function and "
+          "differentiates the same scalar function as the primal; safe_sqrt's rule is v*(0 if x<=0 else 0.5/safe_sqrt(x)); the "
+          "closed-form helpers autodiff differentiates through satisfy their identities; find_root is custom_root with tangent solve "
+          "y/g(1); stress outputs are value_and_grad(L, k) with k the position of the displacement gradient in all three mechanics "
+          "factories; the flow stress is grad of the hardening energy w.r.t. the plastic strain, the plastic residual is the "
+          "derivative of the incremental potential w.r.t. eqps, the element stiffness is the Hessian w.r.t. the element nodal field, "
+          "and J2's hardening tuple slots match HardeningModel. Agreement of delivered derivatives with finite differences is "
+          "numerical and NOT decided."),
+    design_ref="DESIGN.md section 4, C10",
+    technique="static analysis: custom_jvp/custom_root protocol checking, derivative-slot agreement, polynomial identity checking")
+
 NA = {}
 
 
